@@ -770,3 +770,37 @@ def group_analysis(ck, rule, ctx, fl, base, starts, events, exempt, n, short, ki
           detail=f"{short} creates {n} descriptors; some exit is reached with fewer than {n} of them owned/closed/returned")
     ck.ob(rule, base + "|group|no-double", not dbl, fn=ctx.path, site=ctx.site(site_bb),
           detail=f"{short} creates {n} descriptors; some path disposes of more than {n}: double close")
+
+
+def check_ring_setup_release(ck, prog, rule):
+    """the failure edges of setup_io_uring release what was acquired: the ring descriptor and every mapping made so far are disposed of
+    exactly once on every exit (the C12.1 / C12.2 typestate analysis, run on this one function under the caller's rule id - C18.3)"""
+    f = prog.fns.get("rusl::io_uring::setup_io_uring")
+    if not ck.anchor(rule, "setup_io_uring", f):
+        return
+    owner_adts = {}
+    for p, fn in prog.fns.items():
+        if fn.get("impl_trait") != "core::ops::drop::Drop" or not p.endswith("::drop"):
+            continue
+        adt = (fn.get("impl_self") or "").split("<")[0]
+        kinds = set()
+        for b in fn["blocks"]:
+            t = b["term"]
+            if t["k"] == "call" and not b.get("cleanup"):
+                if t.get("callee") == CLOSE:
+                    kinds.add("fd")
+                if t.get("callee") == MUNMAP:
+                    kinds.add("map")
+        if kinds and adt in prog.adts:
+            owner_adts[adt] = kinds
+    summaries = {"owner_adts": owner_adts, "takes": {(CLOSE, "fd"): [0], (OWNED + "::from_raw", "fd"): [0], (MUNMAP, "map"): [0]}}
+    ctx = prog.ctx(f)
+    creators = find_creators(prog)
+    n = 0
+    for bb, t in ctx.cfg.calls(lambda t: t.get("callee") in creators):
+        n += 1
+        analyse_site(ck, prog, ctx, bb, t["callee"], summaries, "fd", rule)
+    for bb, t in ctx.cfg.calls(lambda t: t.get("callee") == MMAP_CREATOR):
+        n += 1
+        analyse_site(ck, prog, ctx, bb, MMAP_CREATOR, summaries, "map", rule)
+    ck.floor(rule, "resources acquired by set-up", n, 4)
